@@ -6,3 +6,5 @@ import OsyrisProofs.C13
 #print axioms Osyris.C13.C13_no_merge_1d
 #print axioms Osyris.C13.C13_merge_collision_witness
 #print axioms Osyris.Readers.readAt_aligned
+#print axioms Osyris.Readers.var_loop_reads_columns
+#print axioms Osyris.Readers.expReads_offs
